@@ -1,7 +1,8 @@
 #!/usr/bin/env python3
 """Determinism self-test: every simulated run must be a pure function of (seed, run index, code).
 For each property a slice of units is executed in many fresh processes spread over GOMAXPROCS 1/4/16;
-all per-unit trace hashes (and violation counts) must be identical. Exit 0 = deterministic, 2 = divergence.
+all per-unit trace hashes (and violation counts) must be identical; and a unit's trace must not depend on
+which other units the same process executed before it (the slice is re-run as two interleaved sub-slices). Exit 0 = deterministic, 2 = divergence.
 usage: selftest/determinism.py [reps=30] [units=40] [props...]"""
 import json, os, subprocess, sys, hashlib, collections
 reps = int(sys.argv[1]) if len(sys.argv) > 1 else 30
@@ -51,6 +52,18 @@ for prop in props:
             for k in ref:
                 if rec.get(k) != ref[k]:
                     div[k] += 1
+        # history independence: the same units executed with different predecessors in the process
+        # (two interleaved sub-slices instead of one slice) must produce the same traces
+        for sub in (f"0/{2*w}/0", f"{w}/{2*w}/0"):
+            e = dict(env, VERIF_SLICE=sub, GOMAXPROCS="4")
+            o = subprocess.run([binp, "-test.run", "^TestVerif$", "-test.timeout", "0"], env=e,
+                               cwd=os.path.join(repo, "cmd/gobl"), capture_output=True, text=True).stdout
+            for l in o.splitlines():
+                if l.startswith("@@RES "):
+                    j = json.loads(l[6:])
+                    got = (j["trace"], j.get("sched", ""), len(j.get("violations") or []), j.get("infra", ""))
+                    if j["run"] in ref and ref[j["run"]] != got:
+                        div[("history", j["run"])] += 1
         infra = [v[3] for v in ref.values() if v[3]]
         summary[f"{prop}/seed{seed}"] = {"units": len(ref), "processes": len(results), "diverging_units": len(div), "infra": infra[:2]}
         status = "ok" if not div and not infra else "DIVERGENCE"
